@@ -988,10 +988,13 @@ impl<'a, 'b> Sem<'a, 'b> {
             "$event.p".to_string()
         } else {
             self.c
-                .choose(&["m1", "m2", "mo.p", "mo[mk]", "marr[0]", "mo.deep.q"])
+                .choose(&["m1", "m2", "mo.p", "mo[mk]", "marr[0]", "mo.deep.q", "(m1)", "(mo.p)", "((m2))"])
                 .to_string()
         };
-        let base = target.split(['.', '[']).next().unwrap().to_string();
+        if target.starts_with('(') {
+            self.label("vmodel-target-parenthesised");
+        }
+        let base = target.trim_start_matches('(').split(['.', '[', ')']).next().unwrap().to_string();
         if !self.vm_targets.contains(&base) {
             self.vm_targets.push(base);
         }
